@@ -124,6 +124,10 @@ def apply_perturbation(resp, p):
         m = res.get("measures", {}).get(p[1])
         if m and isinstance(m.get("metadata"), dict):
             m["metadata"].pop("references", None)
+    elif kind == "dropref_all":  # no numeric measure carries references: default names apply
+        for m in res.get("measures", {}).values():
+            if isinstance(m, dict) and isinstance(m.get("metadata"), dict):
+                m["metadata"].pop("references", None)
     elif kind == "single_col":  # mark as single-column filter cube
         res["is_single_col_cube"] = True
     else:
